@@ -1143,7 +1143,7 @@ impl LunarHour {
   }
 
   pub fn get_eight_char(&self) -> EightChar {
-    EIGHT_CHAR_PROVIDER.lock().unwrap().get_eight_char(self.clone())
+    EIGHT_CHAR_PROVIDER.lock().unwrap_or_else(|e| e.into_inner()).get_eight_char(self.clone())
   }
 
   pub fn get_nine_star(&self) -> NineStar {
